@@ -189,6 +189,23 @@ func rewriteFile(p *packages.Package, f *ast.File, fname string, rep *report, ne
 				changed = true
 			}
 		}
+		if *depth {
+			// every loop iteration of the module counts as work (divergence of a loop that iterates no map)
+			var body *ast.BlockStmt
+			var pos token.Pos
+			switch n := c.Node().(type) {
+			case *ast.ForStmt:
+				body, pos = n.Body, n.Pos()
+			case *ast.RangeStmt:
+				body, pos = n.Body, n.Pos()
+			}
+			if body != nil {
+				id := newSite(pos, "loop")
+				tick := &ast.ExprStmt{X: &ast.CallExpr{Fun: mc("Loop"), Args: []ast.Expr{lit(id)}}}
+				body.List = append([]ast.Stmt{tick}, body.List...)
+				changed = true
+			}
+		}
 		return true
 	}
 	post := func(c *astutil.Cursor) bool {
